@@ -81,34 +81,41 @@ a message of the current version sets `r.offset = m.Offset + 1`. -/
 structure AS where
   c : CS := {}
   pos : Int            -- r.offset, what `Reader.Offset()` returns
+  closed : Bool := false   -- r.closed
 
 inductive AEv
   | setOffset (o : Int)
   | env (t : Nat) (x : Env)
   | fetch
+  /-- `Reader.Close`: from now on SetOffset fails with io.ErrClosedPipe and FetchMessage returns io.EOF right away —
+  nothing is handed out any more, whatever is still queued; the loops wind down (their steps stay possible) -/
+  | close
   deriving Repr
 
 def astep (cfg : RCfg) (items : List Item) (a : AS) : AEv → Option (AS × Option Rec)
+  | .close => some ({ a with closed := true }, none)
   | .setOffset o =>
-    if o = a.pos then some (a, none)
+    if a.closed then some (a, none)          -- io.ErrClosedPipe
+    else if o = a.pos then some (a, none)
     else if a.c.fs.version = 0 then some ({ a with pos := o }, none)
     else match cstep cfg items a.c (.setOffset o) with
       | none => none
-      | some (c', _) => some ({ c := c', pos := o }, none)
+      | some (c', _) => some ({ a with c := c', pos := o }, none)
   | .env t x =>
     match cstep cfg items a.c (.env t x) with
     | none => none
     | some (c', _) => some ({ a with c := c' }, none)
   | .fetch =>
     -- the locked section of FetchMessage (lazy start) and the receive from r.msgs are two steps
-    if a.c.fs.version = 0 then
+    if a.closed then some (a, none)          -- io.EOF
+    else if a.c.fs.version = 0 then
       match cstep cfg items a.c (.setOffset a.pos) with
       | none => none
       | some (c', _) => some ({ a with c := c' }, none)
     else
       match cstep cfg items a.c .fetch with
       | none => none
-      | some (c2, m) => some ({ c := c2, pos := match m with | some r => r.1 + 1 | none => a.pos }, m)
+      | some (c2, m) => some ({ a with c := c2, pos := match m with | some r => r.1 + 1 | none => a.pos }, m)
 
 def arun (cfg : RCfg) (items : List Item) : AS → List AEv → Option (AS × List Rec)
   | a, [] => some (a, [])
@@ -124,5 +131,6 @@ def AEv.ok (items : List Item) : AEv → Prop
   | .setOffset o => -2 ≤ o ∧ o ≠ -1
   | .env _ x => x.ok items
   | .fetch => True
+  | .close => True
 
 end KV.C02
